@@ -22,6 +22,7 @@ func runC07(c *Ctx) {
 	c.rule("answer-every-exit", "on every path of the re-stack function from entry to a return, a non-nil reply channel is sent exactly one answer (at least one on every path, never two)", 2)
 	c.rule("answer-value", "reject exits answer the tested error; the success exit answers nil and only after the store", 3)
 	c.rule("reporter-waits", "BlockingReportNewValue submits and waits inside selects that each contain <-ctx.Done() of its own context parameter; the context arms return a non-nil error", 2)
+	c.rule("blocking-report-forwarded", "every WatchArgs wrapper in the repository forwards BlockingReportNewValue to the wrapped BlockingReportNewValue and returns its result (a wrapper that forwards to the non-blocking report returns before installation and swallows the rejection)", 1)
 	c.rule("blocking-returns-error", "BlockingReportNewValue returns nil only after receiving nil from the reply channel and otherwise returns an error wrapping what it received", 2)
 	c.rule("setsource-order", "Blank.SetSource assigns the inner source only after s.Value succeeded, passes its own context to the blocking report, returns nil only after the report returned nil, and starts the new source's Watch afterwards", 4)
 
@@ -135,6 +136,7 @@ func runC07(c *Ctx) {
 	// ---- reporter-waits ---------------------------------------------------------------
 	c07Waits(c, brn, "reporter-waits")
 	c04Blocking(c, k)
+	k.checkBlockingForwarders("blocking-report-forwarded")
 
 	// ---- setsource-order -----------------------------------------------------------------
 	ss := w.fn("sourcewrap", "Blank.SetSource")
